@@ -140,6 +140,28 @@ C01Solve(e) ==
       hits |-> SetIf(premise, "C01.tension") \cup SetIf(premise /\ ~contaminated /\ ~twoPoint, "C01.clean_case"),
       rejected |-> ~premise]
 
+\* C03: velocity-based inference returns the true tensions (mean one) within the tolerance implied by the
+\* three-decimal rounding of the velocity term (conditioning-derived, supplied with the case from the TRUE system)
+C03Solve(e) ==
+  LET idx == DOMAIN e.x
+      phys == [k \in idx |-> PhysOf(env, fr.ifaces[fr.internal[k]])]
+      ok == \A k \in idx : phys[k] # 0
+      bad == IF ~ok THEN idx ELSE {k \in idx : ~Close(e.x[k], env.E[phys[k]].T, env.tolD)}
+      contaminated == \/ KF_FarFromOrigin(env, bo.fit)
+                      \/ \E k \in DOMAIN fm.rows : \E i \in InternalEndingAt(m, fr, fm.rows[k].v) :
+                         LET q == PhysOf(env, fr.ifaces[i]) IN q # 0 /\
+                            (\/ KF_TwoPointIfc(env, q) \/ KF_SignForcedEnd(env, q, fm.rows[k].v)
+                             \/ KF_LineFitPerpEnd(env, q, fm.rows[k].v, Entry(fm.rows[k], ColOf(fm, i))))
+      twoPoint == \E i \in InternalIdx(m, fr) : LET q == PhysOf(env, fr.ifaces[i]) IN q # 0 /\ KF_TwoPointIfc(env, q)
+      premise == env.dynamic /\ EnvTangentsOK(env) /\ e.opts.bmode = "velocity"
+  IN [fails |-> SetIf(premise /\ bad # {} /\ ~contaminated /\ ~twoPoint, "C03.tension"),
+      kf |-> SetIf(premise /\ bad # {} /\ twoPoint, "KF_TwoPointInterface:C03.tension")
+             \cup SetIf(premise /\ bad # {} /\ ~twoPoint /\ contaminated, "KF_TangentDefects:C03.tension"),
+      hits |-> SetIf(premise, "C03.tension") \cup SetIf(premise /\ ~contaminated /\ ~twoPoint, "C03.clean_case")
+               \cup SetIf(premise /\ env.when = env.nframes - 1, "C03.last_frame_backward")
+               \cup SetIf(premise /\ env.when > 0 /\ env.when < env.nframes - 1, "C03.middle_frame"),
+      rejected |-> ~premise]
+
 C16Solve(e) ==
   [fails |-> SetIf(ExclPos(e) # ExpExclPos, "C16.minus_one_positions"),
    kf |-> {},
@@ -154,12 +176,14 @@ DoSolveStress(e) ==
          c05 == IF usable /\ (Want("C05") \/ Want("C16")) THEN C05Solve(e) ELSE empty
          c01 == IF usable /\ Want("C01") /\ e.finite THEN C01Solve(e) ELSE empty
          c16 == IF usable /\ Want("C16") /\ e.finite THEN C16Solve(e) ELSE empty
+         c03 == IF usable /\ Want("C03") /\ e.finite THEN C03Solve(e) ELSE empty
          pre(set, p) == {p \o s : s \in set}
          c05f == IF Want("C05") THEN c05.fails ELSE {}
          c16r == IF Want("C16") THEN {"C16.restricted_" \o "solution" : s \in {t \in c05.fails : t # "C05.length"}} ELSE {}
          fixStress == raised /\ e.opts.method = "fix_stress"
-     IN EmitV(e, c05f \cup c16r \cup c01.fails \cup c16.fails \cup SetIf(raised /\ ~fixStress, "SOLVE.raised"),
-              c01.kf \cup (IF Want("C05") THEN c05.kf ELSE {}) \cup SetIf(fixStress, "KF_FixStress:SOLVE.raised"), c05.hits \cup c01.hits \cup c16.hits, {}, c01.rejected)
+     IN EmitV(e, c05f \cup c16r \cup c01.fails \cup c16.fails \cup c03.fails \cup SetIf(raised /\ ~fixStress, "SOLVE.raised"),
+              c01.kf \cup c03.kf \cup (IF Want("C05") THEN c05.kf ELSE {}) \cup SetIf(fixStress, "KF_FixStress:SOLVE.raised"),
+              c05.hits \cup c01.hits \cup c16.hits \cup c03.hits, {}, c01.rejected \/ c03.rejected)
   /\ UNCHANGED <<m, fr, env, fm, bo, pm>>
 
 (******************************* pressure (C04) ***************************)
